@@ -742,10 +742,18 @@ Definition onat_eqb (a b : option nat) : bool :=
 
 Definition seteqb (a b : list ckey) : bool := inclb a b && inclb b a.
 
-Definition row_matches (d : drow) (r : row) : bool :=
+(** [early]: the call is a recover call (tasks 7, 9 of [cw]).  catch starts it as soon as one
+    argument of its main expression has failed, while sibling arguments may still be running, so
+    the links of the error argument the real scheduler records are a subset, depending on timing,
+    of the ones the sequential model records (no theorem speaks about them). *)
+Definition row_matches (early : bool) (d : drow) (r : row) : bool :=
   match d with
-  | (p, k, v, u) => onat_eqb p (r_pos r) && okey_eqb k (r_key r) && val_eqb v (r_val r) && seteqb u (r_ups r)
+  | (p, k, v, u) => onat_eqb p (r_pos r) && okey_eqb k (r_key r) && val_eqb v (r_val r)
+                    && (if early then inclb u (r_ups r) else seteqb u (r_ups r))
   end.
+
+Definition early_call (k : ckey) : bool :=
+  match k with (t, _, _) => Nat.eqb t 7 || Nat.eqb t 9 end.
 
 Fixpoint find_call (k : ckey) (l : list callrec) : option callrec :=
   match l with
@@ -758,7 +766,7 @@ Definition db_agrees (db : list (ckey * list drow)) (st : state) : bool :=
   forallb (fun kc => match find_call (fst kc) (s_calls st) with
                      | None => false
                      | Some c => Nat.eqb (List.length (snd kc)) (List.length (c_rows c))
-                                 && forallb (fun d => existsb (row_matches d) (c_rows c)) (snd kc)
+                                 && forallb (fun d => existsb (row_matches (early_call (fst kc)) d) (c_rows c)) (snd kc)
                      end) db.
 
 Definition res_eqb (a b : res) : bool :=
